@@ -87,8 +87,9 @@ CheckKNx1(e) ==
        addmul |-> LimbsAndCarry(e, "addmul", Add(acc, Mul(a, b)), nb),
        submul |-> LimbsAndBorrow(e, "submul", acc, Mul(a, b), nb),
        add    |-> LimbsAndCarry(e, "add", Add(acc, b), nb),
-       adc    |-> LimbsAndCarry(e, "adc", Add(Add(acc, a), c), nb),
-       sbb    |-> LimbsAndBorrow(e, "sbb", acc, Add(a, c), nb),
+       \* the word going in (b) is a full carry / borrow word, the word coming out is exact; for an empty slice it passes through
+       adc    |-> LimbsAndCarry(e, "adc", Add(Add(acc, a), b), nb),
+       sbb    |-> LimbsAndBorrow(e, "sbb", acc, Add(a, b), nb),
        cmp    |-> Eq(e, "cmp", Cmp(acc, a) + 1) ]
 
 CheckKWord(e) ==
@@ -99,8 +100,12 @@ CheckKWord(e) ==
       p == Add(y, b)
       under == Lt(x, p)
       diff == IF under THEN Sub(Add(x, W64), p) ELSE Sub(x, p)
+      \* sbb takes a full borrow word: x - y - c = r - bw * 2^64 with the exact borrow word bw in 0..2
+      pf == Add(y, c)
+      bw == IF Ge(x, pf) THEN Zero ELSE Div2(Add(Sub(pf, x), Ones(64)), 64)
+      rf == IF Ge(x, pf) THEN Sub(x, pf) ELSE Sub(Shl(bw, 64), Sub(pf, x))
   IN [ adc  |-> Eq(e, "adc", <<Mod2(s1, 64), Div2(s1, 64)>>),
-       sbb  |-> Eq(e, "sbb", <<diff, IF under THEN One ELSE Zero>>),
+       sbb  |-> Eq(e, "sbb", <<rf, bw>>),
        cadd |-> Eq(e, "cadd", <<Mod2(s2, 64), ~Lt2(s2, 64)>>),
        bsub |-> Eq(e, "bsub", <<diff, under>>) ]
 
